@@ -84,9 +84,86 @@ def write_back(m, arg, new):
     return False
 
 
+def lit(v):
+    """a literal text (Python str of a &str constant) as a symbolic string: one symbol per character"""
+    if isinstance(v, str):
+        return ('str', list(v))
+    return v
+
+
+def fmt_model(m, path, args, t):
+    """format_args!: Argument::new_display(&x) keeps x; Arguments::new(template, args) is the list of literal pieces and
+    displayed values in template order; write_fmt appends it to the string written to; fmt::format makes it a String.
+    Only `{}` of strings and integers is modelled (an integer is the one symbol 'n'); anything else is Unknown."""
+    a0 = m.deref_value(args[0]) if args else None
+    if re.search(r'fmt::rt::Argument::<.*>::new_display$', path) and args:
+        return ('fmtarg', a0)
+    if re.search(r'fmt::rt::Argument::<.*>::new_\w+$', path) and args:
+        return ('fmtarg?', path.rsplit('::', 1)[-1])
+    if re.search(r'fmt::Arguments::<.*>::(new|new_v1|new_const|from_str)$', path) and args:
+        from .data import decode_fmt_template
+        from .facts import AnchorLost
+        tpl = a0
+        if isinstance(tpl, str):
+            return ('fmt', list(tpl))
+        if isinstance(tpl, tuple) and tpl and tpl[0] == 'tuple' and all(isinstance(x, str) for x in tpl[1]):
+            pieces = []                                   # the older lowering: an array of literal pieces, arguments in between
+            for i, x in enumerate(tpl[1]):
+                if i:
+                    pieces.append(None)
+                pieces.append(x)
+        else:
+            if not (is_sym(tpl) and tpl[1].startswith('const:')):
+                return ('fmt?', 'format template %r' % (tpl,))
+            if len(tpl[1]) >= 66:
+                return ('fmt?', 'format template too long to decode')
+            try:
+                pieces = decode_fmt_template(tpl[1][6:])
+            except AnchorLost as ex:
+                return ('fmt?', str(ex))
+        vals = m.deref_value(args[1]) if len(args) > 1 else ('tuple', [])
+        vals = list(vals[1]) if isinstance(vals, tuple) and vals and vals[0] == 'tuple' else []
+        out = []
+        it = iter(vals)
+        for pc in pieces:
+            if pc is None:
+                v = next(it, None)
+                v = m.deref_value(v[1]) if isinstance(v, tuple) and v and v[0] == 'fmtarg' else None
+                if isinstance(v, int) and not isinstance(v, bool):
+                    out.append('n')
+                elif isinstance(v, str):
+                    out += list(v)
+                elif is_str(v):
+                    out += list(v[1])
+                else:
+                    return ('fmt?', 'format argument %r' % (v,))          # a rendering the model cannot spell: opaque until used
+            elif pc:
+                out += list(pc)
+        return ('fmt', out)
+    if re.search(r'fmt::Write>?::write_fmt$', path) and len(args) == 2:
+        f = m.deref_value(args[1])
+        if isinstance(f, tuple) and f and f[0] == 'fmt?':
+            raise Unknown(f[1])
+        cur = lit(a0)
+        if isinstance(f, tuple) and f and f[0] == 'fmt' and is_str(cur) and is_ptr(args[0]):
+            write_back(m, args[0], ('str', list(cur[1]) + list(f[1])))
+            return m.make_adt('core::result::Result::Ok', [('tuple', [])], [])
+    if re.search(r'alloc::fmt::format$|fmt::format::format_inner$', path) and isinstance(a0, tuple) and a0 and a0[0] == 'fmt':
+        return ('str', list(a0[1]))
+    if re.search(r'fmt::Arguments::<.*>::as_(statically_known_)?str$', path) and isinstance(a0, tuple) and a0 and a0[0] == 'fmt':
+        return none(m)
+    return NotImplemented
+
+
 def std_model(m, path, args, t):
     """returns a value, or NotImplemented"""
     a0 = m.deref_value(args[0]) if args else None
+    if 'fmt' in path:
+        r = fmt_model(m, path, args, t)
+        if r is not NotImplemented:
+            return r
+    if re.search(r'string::String::(push|push_str)$', path) and isinstance(a0, str):
+        a0 = lit(a0)
     # ---------------------------------------------------------------- strings
     if re.search(r'string::String::new$|String::with_capacity$', path):
         return ('str', [])
@@ -95,7 +172,7 @@ def std_model(m, path, args, t):
         write_back(m, args[0], ('str', a0[1] + [ch]))
         return sym('unit')
     if re.search(r'string::String::push_str$', path) and len(args) == 2 and is_str(a0):
-        other = m.deref_value(args[1])
+        other = lit(m.deref_value(args[1]))
         if not is_str(other):
             raise Unknown('push_str of %r' % (other,))
         write_back(m, args[0], ('str', a0[1] + other[1]))
@@ -127,9 +204,11 @@ def std_model(m, path, args, t):
         return ('it', [('tuple', [i, c]) for i, c in enumerate(a0[1])], 'char_indices')
     if re.search(r'str::<impl str>::trim(_end|_start)?$|String::as_str$|Deref>::deref$', path) and is_str(a0) and not re.search(r'trim', path):
         return args[0] if is_ptr(args[0]) else a0
-    if re.search(r'ops::Index<.*Range.*>>::index$|str::traits::<impl .*Index.*>::index$', path) and len(args) == 2 and (is_str(a0) or is_vec(a0)):
+    if re.search(r'ops::Index<.*>>::index$|str::traits::<impl .*Index.*>::index$', path) and len(args) == 2 and (is_str(a0) or is_vec(a0)):
         r = m.deref_value(args[1])
         seq = a0[1]
+        if is_sym(r) and 'RangeFull' in r[1]:
+            return a0                                  # `s[..]`
         if isinstance(r, dict):
             adt = r.get('__adt__', '')
             lo, hi = 0, len(seq)
